@@ -168,9 +168,10 @@ theorem infoStep_zeroFrag (consumed : Bool) (buf : List Nat) (hb : buf.length â‰
   unfold infoStep
   rw [unpack_zeroFrag]
   have h1 : (zeroFragHdr.opCode == opListResponse) = true := by decide
-  have h2 : subUsize cfg16.mode zeroFragHdr.mailbox.length COE_HEADER_AND_LIST_TYPE_SIZE = .ok 0 := by decide
-  simp only [Res.bind_ok, h1, if_true, h2, Nat.not_lt_zero, if_false, List.take_zero, List.length_nil, Nat.add_zero,
-    List.append_nil]
+  have h2 : Â¬ zeroFragHdr.mailbox.length < COE_HEADER_AND_LIST_TYPE_SIZE := by decide
+  have h3 : zeroFragHdr.mailbox.length - COE_HEADER_AND_LIST_TYPE_SIZE = 0 := by decide
+  simp only [Res.bind_ok, h1, if_true, if_neg h2, h3, Nat.not_lt_zero, if_false, List.take_zero, List.length_nil,
+    Nat.add_zero, List.append_nil]
   rw [if_neg (by omega)]
   rfl
 
